@@ -144,6 +144,8 @@ type Exec struct {
 	assumeBlock []int         // origin block of each assumption
 	reach       map[int]map[int]bool // reach[a][b]: block a reaches block b in the top-frame CFG (reflexive)
 	specAppBlk  map[string]int
+	world       map[string]*Root // ghost world of the CLI effect model: stdout, stderrLines, fileWritten, fileName, fileData, writeErr
+	exits       []exitPoint
 	lcsArgs     map[string][]Term
 	readInv     bool // wrap() is being applied to a value read from memory
 	trusted     map[string]bool // trusted (assumed) contracts used
@@ -889,3 +891,37 @@ func sameVal(a, b Val) bool {
 
 // extra Exec state kept outside the struct literal for readability
 type execExtra struct{}
+
+// ---------------------------------------------------------------------
+// CLI effect model: ghost world
+
+type exitPoint struct {
+	pc    Term
+	code  Term
+	st    *State
+	pos   token.Pos
+	block int
+	nAssume, nDecl int
+}
+
+var worldVars = []struct {
+	name string
+	sort Sort
+}{{"stdout", SString}, {"stderrLines", SInt}, {"fileWritten", SBool}, {"fileName", SString}, {"fileData", SString}, {"writeErr", SErr}}
+
+func (e *Exec) initWorld(st *State) {
+	e.world = map[string]*Root{}
+	for _, w := range worldVars {
+		r := e.newRoot("world_"+w.name, 0, "", "world")
+		e.world[w.name] = r
+		c := e.fresh("w_"+w.name, w.sort)
+		st.cell[r] = termVal(c)
+	}
+	e.assume(Cmp(">=", st.cell[e.world["stderrLines"]].T, IntLit(0)))
+}
+
+func (e *Exec) worldGet(st *State, name string) Term { return st.cell[e.world[name]].T }
+
+func (e *Exec) worldSet(st *State, name string, t Term) {
+	st.cell[e.world[name]] = termVal(e.name("w_"+name, t))
+}
